@@ -3,7 +3,8 @@
     route) and Proofs/IndexReader.v (routes through the index). *)
 From SF Require Import Model.Bytes Model.F64 Model.ShapeType Model.Shapes Model.Res Model.Encode Model.F64Arith
   Model.Construct Model.Writer Model.Prog Model.Decode Model.Reader Spec.Esri Spec.Denote Spec.Layout.
-From SF Require Import Proofs.ReaderSeq Proofs.WriterInv Proofs.EncodeRef Proofs.LayoutConf Proofs.RoundTrip Proofs.OnRead.
+From SF Require Import Proofs.ReaderSeq Proofs.WriterInv Proofs.EncodeRef Proofs.LayoutConf Proofs.RoundTrip Proofs.OnRead
+  Proofs.IndexReader Proofs.IndexFiles.
 From SF Require Import Properties.C02.
 Open Scope Z_scope.
 
@@ -29,6 +30,32 @@ Proof.
   apply written_then_read_seq; [apply accepted_wf, Hwf|apply accepted_one_type0|exact Hf|exact Hr|exact Hreq].
 Qed.
 Print Assumptions C01_roundtrip_seq.
+
+
+(** The routes through the index: the .shx the writer left parses to one entry
+    per shape, and for every history of reader calls on a reader opened with it
+    — sequential iteration, random access at any indices in any order,
+    seek, count — each call returns what the abstract reader over
+    [map on_read ss] returns ([abs_call], Proofs/IndexReader.v): read_nth i is
+    [on_read] of the i-th written shape for i < n and nothing beyond, a full
+    iteration yields all of them in order. *)
+Theorem C01_roundtrip_index : forall (req : option shape_type) (cs : list wcall) (e : wending) (rcs : list rcall),
+  Forall call_wf cs ->
+  let ss := accepted_acc [] cs in
+  FileFits ss -> RecordsFit ss -> (req = None \/ req = Some (file_type ss)) -> Forall rcall_wf rcs ->
+  let fs := files (snd (run_history true world0 cs e)) in
+  exists idx,
+    fst (run read_index_file (src_of (snd fs))) = Ok idx /\ zlen idx = zlen ss /\
+    exists s',
+      run (st <-- r_with_shx idx ;; x <-- r_calls req st rcs ;; Ret (r_hdr st, fst x)) (src_of (fst fs))
+      = (Ok (header_of (file_type ss) (box8 (h_box (final_hdr ss))) (file_words ss),
+             abs_calls (map on_read ss) 0 rcs), s').
+Proof.
+  intros req cs e rcs Hwf ss Hf Hrf Hreq Hr fs. subst fs.
+  rewrite (history_files true cs e (call_wf_ok cs Hwf)). cbn [fst snd]. fold ss.
+  apply written_then_read_index; try assumption; [apply accepted_wf, Hwf|apply accepted_one_type0].
+Qed.
+Print Assumptions C01_roundtrip_index.
 
 (** What [on_read] keeps, clause by clause. *)
 Theorem C01_same_type : forall s, type_of (on_read s) = type_of s /\ shape_dim (on_read s) = shape_dim s.
